@@ -175,6 +175,30 @@ func NewRaceEngine(p *Prog, rv *Rendezvous) *RaceEngine {
 				}
 			})
 		}
+		// the counter must have been raised for this goroutine before it is started: an Add made
+		// by the goroutine itself can come after the spawner's Wait has already returned
+		if usesDone {
+			addBefore := false
+			Instrs(gs.In, func(in ssa.Instruction) {
+				if IsCallTo(in, "(*sync.WaitGroup).Add") && InstrDominates(in, gs.Instr) {
+					addBefore = true
+				}
+			})
+			if !addBefore {
+				addInside := ""
+				for _, c := range gs.Callees {
+					Instrs(c, func(in ssa.Instruction) {
+						if IsCallTo(in, "(*sync.WaitGroup).Add") {
+							addInside = p.InstrPos(in)
+						}
+					})
+				}
+				usesDone = false
+				if addInside != "" {
+					e.BadJoins = append(e.BadJoins, [2]string{id, "the goroutines raise the WaitGroup counter themselves (Add at " + addInside + ", inside the goroutine) instead of the function that starts them doing so before the go statement: Wait in " + FuncName(gs.In) + " can return before a goroutine has registered, or even started"})
+				}
+			}
+		}
 		if usesDone {
 			Instrs(gs.In, func(in ssa.Instruction) {
 				if IsCallTo(in, "(*sync.WaitGroup).Wait") && InstrReaches(gs.Instr, in) && r.Join == nil {
@@ -884,6 +908,68 @@ func (e *RaceEngine) partitionTypes(r *Role) map[string]bool {
 						}
 					}
 				}
+			}
+		}
+	}
+	// `go work(i)` with i the index of the starting loop: an element of a table of distinct objects
+	// that the goroutine selects with exactly that index is its own
+	{
+		var cl *ssa.Function
+		switch x := r.Go.Call.Value.(type) {
+		case *ssa.MakeClosure:
+			cl, _ = x.Fn.(*ssa.Function)
+		case *ssa.UnOp:
+			if mc, ok := resolveCell(x).(*ssa.MakeClosure); ok {
+				cl, _ = mc.Fn.(*ssa.Function)
+			}
+		}
+		if cl == nil {
+			cl = r.Go.Call.StaticCallee()
+		}
+		if cl != nil && len(cl.Params) == len(r.Go.Call.Args) {
+			for i, q := range cl.Params {
+				if !isIntLike(q.Type()) {
+					continue
+				}
+				// the argument is the loop's own index (not arithmetic on it)
+				arg := r.Go.Call.Args[i]
+				direct := false
+				switch a := arg.(type) {
+				case *ssa.Phi:
+					direct = a.Block().Dominates(r.Go.Block())
+				case *ssa.Extract:
+					_, isNext := a.Tuple.(*ssa.Next)
+					direct = isNext
+				case *ssa.BinOp:
+					// range-over-slice index: phi + 1
+					if _, isPhi := a.X.(*ssa.Phi); isPhi && a.Op == token.ADD {
+						if k, isC := constInt(a.Y); isC && k == 1 {
+							direct = true
+						}
+					}
+				}
+				if !direct {
+					continue
+				}
+				Instrs(cl, func(in ssa.Instruction) {
+					ia, ok := in.(*ssa.IndexAddr)
+					if !ok || stripConv(ia.Index) != ssa.Value(q) {
+						return
+					}
+					u, ok := ia.X.(*ssa.UnOp)
+					if !ok {
+						return
+					}
+					k, isF := fieldKeyOfAddr(u.X)
+					if !isF || !e.distinctElems(k, 0) {
+						return
+					}
+					if sl, isSl := ia.X.Type().Underlying().(*types.Slice); isSl {
+						if pt, isPtr := sl.Elem().(*types.Pointer); isPtr {
+							add(pt.Elem(), 0)
+						}
+					}
+				})
 			}
 		}
 	}
